@@ -21,6 +21,7 @@ import MultiProofs.BlasShapes
 import MultiProofs.BlasGemm
 import MultiProofs.BlasGemv
 import MultiProofs.BlasLevel1
+import MultiProofs.BlasSyrk
 
 namespace Multi.C13
 open Multi.Blas Multi.Blas.Gen
@@ -482,6 +483,144 @@ theorem finding_gemv_branch_2_inner0 : GemvCounterexample gemv_n.guard_2 gemv_n.
 
 end gemv
 
+/-! ## syrk (syrk.hpp:17-37; also reached by `herk` on real element types) -/
+section syrk
+
+macro "syrk_branch" s:ident c:ident : tactic => `(tactic| (
+  refine ⟨_, rfl, ?_⟩
+  unfold SyrkOK
+  rw [syrk_illegal_none_iff]
+  cases $s:ident <;> cases $c:ident <;>
+  (simp only [RankKCall.LegalSyrk, OutIs, RkIs, Mat.lm, Mat.lmT, Mat.Lin, Mat.RowOK, Mat.ColOK, Filling.char, Filling.flip] at *
+   simp (config := {decide := true}) only [true_and, and_true, true_or, or_true, if_true, if_false, false_and, and_false, false_or, or_false, ne_eq, not_true_eq_false, not_false_eq_true, *] at *
+   omega)))
+
+/-- view invariants for C := alpha·A·Aᵀ + beta·C: C square, as many rows as A, nothing conjugated -/
+structure SyrkHyp (a c : Mat) : Prop where
+  la : a.Lin
+  lc : c.Lin
+  hn : a.n0 = c.n0
+  hsq : c.n1 = c.n0
+  ha : a.cj = false
+  hc : c.cj = false
+
+variable (cplx : Bool) (side : Filling) (alpha beta : R) (a c : Mat)
+
+/-- syrk.hpp:32 — A and C row-major.  The chain never checks that the inner strides are 1 (no assertion at all): the domain has to say it. -/
+theorem syrk_branch_1_ok (H : SyrkHyp a c) (h : syrk.guard_1 side a c) (d : a.RowOK ∧ c.RowOK ∧ (a.s1 = 1 ∨ a.n1 ≤ 1) ∧ (c.s1 = 1 ∨ c.n0 ≤ 1)) :
+    ∃ g, syrk.call_1 side alpha beta a c = .syrk g ∧ SyrkOK g cplx alpha beta side a c := by
+  obtain ⟨la, lc, hn, hsq, ha, hc⟩ := H; unfold syrk.guard_1 at h; syrk_branch side cplx
+
+/-- syrk.hpp:26 — A column-major, C row-major -/
+theorem syrk_branch_2_ok (H : SyrkHyp a c) (h : syrk.guard_2 side a c) (d : a.ColOK ∧ c.RowOK ∧ (c.s1 = 1 ∨ c.n0 ≤ 1)) :
+    ∃ g, syrk.call_2 side alpha beta a c = .syrk g ∧ SyrkOK g cplx alpha beta side a c := by
+  obtain ⟨la, lc, hn, hsq, ha, hc⟩ := H; unfold syrk.guard_2 at h; syrk_branch side cplx
+
+/-- syrk.hpp:30 — A row-major, C column-major -/
+theorem syrk_branch_4_ok (H : SyrkHyp a c) (h : syrk.guard_4 side a c) (d : a.RowOK ∧ c.ColOK ∧ (a.s1 = 1 ∨ a.n1 ≤ 1)) :
+    ∃ g, syrk.call_4 side alpha beta a c = .syrk g ∧ SyrkOK g cplx alpha beta side a c := by
+  obtain ⟨la, lc, hn, hsq, ha, hc⟩ := H; unfold syrk.guard_4 at h; syrk_branch side cplx
+
+/-- certified domain of the leaves of `syrk` (leaf 3 — A and C column-major — is wrong: `finding_syrk_branch_3`) -/
+def syrkDom (t : Nat) (a c : Mat) : Prop :=
+  match t with
+  | 1 => a.RowOK ∧ c.RowOK ∧ (a.s1 = 1 ∨ a.n1 ≤ 1) ∧ (c.s1 = 1 ∨ c.n0 ≤ 1)
+  | 2 => a.ColOK ∧ c.RowOK ∧ (c.s1 = 1 ∨ c.n0 ≤ 1)
+  | 4 => a.RowOK ∧ c.ColOK ∧ (a.s1 = 1 ∨ a.n1 ≤ 1)
+  | _ => False
+
+end syrk
+
+/-- **syrk_correct (partial)**: from a certified leaf the xSYRK call is legal and C := alpha·A·Aᵀ + beta·C on the `side` triangle
+    of the logical matrix; nothing else (in particular the other triangle) changes.  FULL statement false: `finding_syrk_*`. -/
+theorem syrk_correct_partial [DecidableEq R] {nd cplx : Bool} {side : Filling} {alpha beta : R} {a c : Mat} {t : Nat} {cl : Call R}
+    (H : SyrkHyp a c) (h : Gen.syrk nd side alpha beta a c = .call t cl) (hd : syrkDom t a c) :
+    ∃ g, cl = .syrk g ∧ g.LegalSyrk cplx ∧ ∀ mem : Mem R, SyrkSpec alpha beta side a c mem (g.execSyrk cplx mem) := by
+  have key : ∃ g, cl = .syrk g ∧ SyrkOK g cplx alpha beta side a c := by
+    revert hd
+    refine syrk.elim h (fun t cl => syrkDom t a c → ∃ g, cl = .syrk g ∧ SyrkOK g cplx alpha beta side a c) ?_ ?_ ?_ ?_
+    · exact fun g d => syrk_branch_1_ok cplx side alpha beta a c H g d
+    · exact fun g d => syrk_branch_2_ok cplx side alpha beta a c H g d
+    · exact fun _ d => d.elim
+    · exact fun g d => syrk_branch_4_ok cplx side alpha beta a c H g d
+  obtain ⟨g, hg, hok⟩ := key
+  exact ⟨g, hg, (syrk_illegal_none_iff g cplx).mp hok.1, fun mem => syrkOK_sound H.hc hok mem⟩
+
+structure SyrkCounterexample (guard : Filling → Mat → Mat → Prop) (call : Filling → GInt → GInt → Mat → Mat → Call GInt) (side : Filling) (a c : Mat) : Prop where
+  wa : a.WF
+  wc : c.WF
+  sizes : a.n0 = c.n0 ∧ c.n1 = c.n0 ∧ a.cj = false ∧ c.cj = false
+  guard : guard side a c
+  bad : ∃ g : RankKCall GInt, call side 1 ⟨2, 1⟩ a c = .syrk g ∧ (g.illegal false true ≠ none ∨ ¬ SyrkSpec 1 ⟨2, 1⟩ side a c zmem (g.execSyrk true zmem))
+
+/-- syrk.hpp:24 — A and C column-major: the call passes k = size(a) (the number of ROWS of A) and ldc = the number of
+    columns of C: a 2×3 A into a contiguous 2×2 C sums over 2 instead of 3 columns -/
+theorem finding_syrk_branch_3 : SyrkCounterexample syrk.guard_3 syrk.call_3 .lower ⟨0, 1, 2, 2, 3, false⟩ ⟨200, 1, 2, 2, 2, false⟩ :=
+  ⟨by wf_dec, by wf_dec, by decide, by decide, _, rfl, Or.inr (fun h => absurd (h.elems 0 0 (by decide) (by decide) (by decide) (by decide) (by decide)) (by decide))⟩
+
+/-- syrk.hpp:26 — a contiguous n×1 matrix A (both strides 1) is taken for column-major with lda = 1: XERBLA parameter 7 -/
+theorem finding_syrk_branch_2 : SyrkCounterexample syrk.guard_2 syrk.call_2 .lower ⟨0, 1, 1, 3, 1, false⟩ ⟨200, 4, 1, 3, 3, false⟩ :=
+  ⟨by wf_dec, by wf_dec, by decide, by decide, _, rfl, Or.inl (by decide)⟩
+
+/-- syrk.hpp:32 — no stride is checked: a matrix A whose inner stride is 2 (inexpressible in BLAS) is accepted and a legal call
+    computes from the wrong elements instead of being rejected -/
+theorem finding_syrk_branch_1_nonunit : SyrkCounterexample syrk.guard_1 syrk.call_1 .lower ⟨0, 8, 2, 2, 3, false⟩ ⟨200, 4, 1, 2, 2, false⟩ :=
+  ⟨by wf_dec, by wf_dec, by decide, by decide, _, rfl, Or.inr (fun h => absurd (h.elems 0 0 (by decide) (by decide) (by decide) (by decide) (by decide)) (by decide))⟩
+
+/-! ## herk (complex) and trsm: findings
+
+  The correctness of the remaining leaves of `herk` and `trsm` is NOT proved here (no certificate/soundness lemma for xHERK and
+  xTRSM yet): it is validated by the differential run only.  What is proved: the leaves below are wrong. -/
+
+structure HerkCounterexample (guard : Filling → Mat → Mat → Prop) (call : Filling → GInt → GInt → Mat → Mat → Call GInt) (side : Filling) (a c : Mat) : Prop where
+  wa : a.WF
+  wc : c.WF
+  sizes : a.n0 = c.n0 ∧ c.n1 = c.n0 ∧ c.cj = false
+  guard : guard side a c
+  bad : ∃ g : RankKCall GInt, call side 1 ⟨2, 0⟩ a c = .herk g ∧ (g.illegal true true ≠ none ∨ ¬ HerkSpec 1 ⟨2, 0⟩ side a c zmem (g.execHerk zmem))
+
+/-- herk.hpp:140 — a contiguous n×1 matrix A (both strides 1) into a column-major C: lda = 1, XERBLA parameter 7 -/
+theorem finding_herk_branch_1 : HerkCounterexample herk.guard_1 herk.call_1 .upper ⟨0, 1, 1, 2, 1, false⟩ ⟨200, 1, 2, 2, 2, false⟩ :=
+  ⟨by wf_dec, by wf_dec, by decide, by decide, _, rfl, Or.inl (by decide)⟩
+
+/-- herk.hpp:124 — the same with a conjugated A and a row-major C -/
+theorem finding_herk_branch_9 : HerkCounterexample herk.guard_9 herk.call_9 .lower ⟨0, 1, 1, 3, 1, true⟩ ⟨200, 4, 1, 3, 3, false⟩ :=
+  ⟨by wf_dec, by wf_dec, by decide, by decide, _, rfl, Or.inl (by decide)⟩
+
+/-- herk.hpp:130 — conj(A) row-major into a row-major C: the call computes Aᴴ·A of the UNDERLYING matrix, i.e. the complex
+    conjugate of the requested conj(A)·conj(A)ᴴ -/
+theorem finding_herk_branch_11 : HerkCounterexample herk.guard_11 herk.call_11 .upper ⟨0, 4, 1, 3, 1, true⟩ ⟨200, 6, 1, 3, 3, false⟩ :=
+  ⟨by wf_dec, by wf_dec, by decide, by decide, _, rfl,
+   Or.inr (fun h => absurd (h.elems 0 1 (by decide) (by decide) (by decide) (by decide) (by decide) (by decide)) (by decide))⟩
+
+structure TrsmCounterexample (side : Side) (fill : Filling) (diag : Diag) (guard : Side → Filling → Diag → Mat → Mat → Prop)
+    (call : Side → Filling → Diag → GInt → Mat → Mat → Call GInt) (a b : Mat) : Prop where
+  wa : a.WF
+  wb : b.WF
+  square : a.n0 = a.n1 ∧ (side = .left → a.n0 = b.n0) ∧ (side = .right → a.n0 = b.n1)
+  guard : guard side fill diag a b
+  bad : ∃ g : TrsmCall GInt, call side fill diag 1 a b = .trsm g ∧ g.illegal ≠ none
+
+/-- trsm.hpp:92 — B a contiguous m×1 matrix (both strides 1) is taken for column-major with ldb = 1: XERBLA parameter 11 -/
+theorem finding_trsm_branch_10 : TrsmCounterexample .left .lower .nonUnit trsm.guard_10 trsm.call_10 ⟨0, 1, 6, 2, 2, false⟩ ⟨100, 1, 1, 2, 1, false⟩ :=
+  ⟨by wf_dec, by wf_dec, by decide, by decide, _, rfl, by decide⟩
+
+/-- trsm.hpp:93 — B a 1×n matrix with both strides 1 is taken for row-major with ldb = 1 -/
+theorem finding_trsm_branch_13 : TrsmCounterexample .right .lower .nonUnit trsm.guard_13 trsm.call_13 ⟨0, 3, 1, 3, 3, false⟩ ⟨100, 1, 1, 1, 3, false⟩ :=
+  ⟨by wf_dec, by wf_dec, by decide, by decide, _, rfl, by decide⟩
+
+/-- trsm.hpp:98 — conj(A), B 1×n with both strides 1 -/
+theorem finding_trsm_branch_5 : TrsmCounterexample .right .upper .unit trsm.guard_5 trsm.call_5 ⟨0, 1, 5, 4, 4, true⟩ ⟨100, 1, 1, 1, 4, false⟩ :=
+  ⟨by wf_dec, by wf_dec, by decide, by decide, _, rfl, by decide⟩
+
+/-- trsm.hpp:99 — conj(A), B m×1 with both strides 1 -/
+theorem finding_trsm_branch_6 : TrsmCounterexample .left .upper .nonUnit trsm.guard_6 trsm.call_6 ⟨0, 8, 1, 3, 3, true⟩ ⟨100, 1, 1, 3, 1, false⟩ :=
+  ⟨by wf_dec, by wf_dec, by decide, by decide, _, rfl, by decide⟩
+
+/-- trsm.hpp:102 — conj(B) m×1 with both strides 1 -/
+theorem finding_trsm_branch_8 : TrsmCounterexample .left .lower .unit trsm.guard_8 trsm.call_8 ⟨0, 2, 1, 2, 2, false⟩ ⟨100, 1, 1, 2, 1, true⟩ :=
+  ⟨by wf_dec, by wf_dec, by decide, by decide, _, rfl, by decide⟩
+
 /-! ## level 1: axpy, scal, copy, swap, dot (axpy.hpp, scal.hpp, copy.hpp, swap.hpp, dot.hpp) -/
 section level1
 
@@ -834,5 +973,67 @@ theorem finding_gemm_nn_branch_18 : GemmCounterexample gemm_n_nn.guard_18 gemm_n
 /-- gemm.hpp:58 [(((a.s1 = 1) ∧ (b.s1 = 1)) ∧ (c.s1 = 1)) ; (a.n0 = 1)] at size class m1ngk0: illegal call (XERBLA parameter 8) -/
 theorem finding_gemm_nn_branch_19 : GemmCounterexample gemm_n_nn.guard_19 gemm_n_nn.call_19 ⟨0, 4, 1, 1, 0, false⟩ ⟨100, 1, 1, 0, 2, false⟩ ⟨200, 2, 1, 1, 2, false⟩ :=
   ⟨by shapes_dec, rfl, by decide, _, rfl, Or.inl (by decide)⟩
+
+/-! ## rejected_is_inexpressible (partial)
+
+  FULL statement: whenever a front end rejects (assertion or exception), no legal BLAS call computes the operation.  It is
+  FALSE for the current code: the conjugated overloads of `gemm_n` throw "not BLAS-implemented" for combinations xGEMM can
+  express, and the special-case leaves throw (core::gemm) on expressible shapes.  Over-rejection does not violate C13.
+  What is proved: an assertion failure of the main overload means that some operand has no unit stride (or the sizes of B
+  and C differ), and an operand with two non-unit strides and at least 2×2 elements cannot be addressed by ANY column-major
+  operand descriptor (pointer, leading dimension, 'N' / 'T' / 'C'). -/
+
+theorem gemm_nn_assert_is_nonunit {alpha beta : R} {a b c : Mat} {t : Nat}
+    (h : gemm_n_nn false alpha beta a b c = .assertFail t) (hn : b.n1 = c.n1) :
+    (a.s0 ≠ 1 ∧ a.s1 ≠ 1) ∨ (b.s0 ≠ 1 ∧ b.s1 ≠ 1) ∨ (c.s0 ≠ 1 ∧ c.s1 ≠ 1) := by
+  refine gemm_n_nn.elimAssert h _ ?_ ?_ ?_ ?_ ?_
+  · intro hh; exact absurd hn hh.2
+  · intro hh; left; have := hh.2; omega
+  · intro hh; right; left; have := hh.2; omega
+  · intro hh; right; right; have := hh.2; omega
+  · intro hg; unfold gemm_n_nn.guard_1 at hg; omega
+
+/-- no column-major operand (p, ld) read with 'N' (element (i,l) at p + i + l·ld) or with 'T'/'C' (at p + l + i·ld) addresses
+    the elements base + i·sr + l·sc of a matrix with both strides ≥ 2 and at least 2 rows and 2 columns -/
+theorem no_operand_addresses {base sr sc rows cols : Int} (hr : 2 ≤ rows) (hc : 2 ≤ cols) (h0 : 2 ≤ sr) (h1 : 2 ≤ sc) (p ld : Int) :
+    ¬ (∀ i l : Int, 0 ≤ i → i < rows → 0 ≤ l → l < cols → p + i + l * ld = base + i * sr + l * sc) ∧
+    ¬ (∀ i l : Int, 0 ≤ i → i < rows → 0 ≤ l → l < cols → p + l + i * ld = base + i * sr + l * sc) := by
+  constructor
+  · intro h
+    have e00 := h 0 0 (by omega) (by omega) (by omega) (by omega)
+    have e10 := h 1 0 (by omega) (by omega) (by omega) (by omega)
+    simp at e00 e10
+    omega
+  · intro h
+    have e00 := h 0 0 (by omega) (by omega) (by omega) (by omega)
+    have e01 := h 0 1 (by omega) (by omega) (by omega) (by omega)
+    simp at e00 e01
+    omega
+
+/-! ## Non-vacuity: the hypotheses of the main theorems are satisfiable -/
+
+macro "dom_dec" : tactic => `(tactic| (simp only [gemmDom, gemmNNDom, gemmCNDom, gemmNCDom, gemvDom, syrkDom, Mat.RowOK, Mat.ColOK, Mat.Lin]; decide))
+
+/-- a 2×3 sub-block of a row-major array with 5 columns, times a 3×2 sub-block (4 columns), into a 2×2 sub-block (6 columns):
+    the main leaf (gemm.hpp:59) is taken and lies in its certified domain -/
+example : ∃ t cl, gemm_n (R := Int) false 1 2 ⟨0, 5, 1, 2, 3, false⟩ ⟨100, 4, 1, 3, 2, false⟩ ⟨200, 6, 1, 2, 2, false⟩ = .call t cl ∧
+    GemmShapes ⟨0, 5, 1, 2, 3, false⟩ ⟨100, 4, 1, 3, 2, false⟩ ⟨200, 6, 1, 2, 2, false⟩ ∧
+    gemmDom t ⟨0, 5, 1, 2, 3, false⟩ ⟨100, 4, 1, 3, 2, false⟩ ⟨200, 6, 1, 2, 2, false⟩ :=
+  ⟨17, _, rfl, by shapes_dec, by dom_dec⟩
+
+/-- conjugated A (column-major) times B (row-major): leaf 2 of the (conj A) overload -/
+example : ∃ t cl, gemm_n (R := GInt) false 1 ⟨2, 1⟩ ⟨0, 1, 4, 2, 3, true⟩ ⟨100, 4, 1, 3, 2, false⟩ ⟨200, 6, 1, 2, 2, false⟩ = .call t cl ∧
+    gemmDom t ⟨0, 1, 4, 2, 3, true⟩ ⟨100, 4, 1, 3, 2, false⟩ ⟨200, 6, 1, 2, 2, false⟩ :=
+  ⟨2, _, rfl, by dom_dec⟩
+
+/-- gemv on a padded row-major 2×3 matrix with strided vectors -/
+example : ∃ t cl, gemv_n (R := Int) false 1 2 ⟨0, 5, 1, 2, 3, false⟩ ⟨100, 2, 3, false⟩ ⟨200, 3, 2, false⟩ = .call t cl ∧
+    GemvHyp ⟨0, 5, 1, 2, 3, false⟩ ⟨100, 2, 3, false⟩ ⟨200, 3, 2, false⟩ ∧ gemvDom t ⟨0, 5, 1, 2, 3, false⟩ :=
+  ⟨5, _, rfl, ⟨by dom_dec, by decide, by decide, by decide, by decide, rfl, rfl, rfl, rfl⟩, by dom_dec⟩
+
+/-- syrk: row-major 3×2 A into a padded row-major 3×3 C -/
+example : ∃ t cl, Gen.syrk (R := Int) false .lower 1 2 ⟨0, 4, 1, 3, 2, false⟩ ⟨200, 5, 1, 3, 3, false⟩ = .call t cl ∧
+    SyrkHyp ⟨0, 4, 1, 3, 2, false⟩ ⟨200, 5, 1, 3, 3, false⟩ ∧ syrkDom t ⟨0, 4, 1, 3, 2, false⟩ ⟨200, 5, 1, 3, 3, false⟩ :=
+  ⟨1, _, rfl, ⟨by dom_dec, by dom_dec, rfl, rfl, rfl, rfl⟩, by dom_dec⟩
 
 end Multi.C13
